@@ -1790,6 +1790,17 @@ def client_case(draw, tier: str, sshg: bool):
     top = ['t/main']
     files['t/main'] = body(10 if big else 7, t1 + t2, True)
 
+    if 'Hostname' in pool and draw(st.integers(0, 5)) == 0:
+        # Hostname rewrite followed by Match host: the criterion sees the
+        # rewritten name
+        main = files['t/main']
+        main.insert(0, opt_line('Hostname'))
+        pos = draw(st.integers(1, len(main)))
+        main.insert(pos, opt_line(focus[0]))
+        main.insert(pos, ['match', [[draw(st.integers(0, 3)) == 0, 'host',
+                                     _patlist(draw, HOST_PATS)]],
+                          _style(draw, 1, False)])
+
     if draw(st.integers(0, 2)) == 0:
         # the conf.d idiom: several files settle the same option, the
         # order in which a glob delivers them decides
@@ -2113,22 +2124,25 @@ FAMILIES = [
                              'canonical-pass', 'list-accumulates',
                              'first-value-kept', 'error-expected',
                              'match-host-after-hostname', 'preset-user',
-                             'match-exec']}),
+                             'match-exec']},
+           shards={'quick': 8, 'thorough': 16}),
     Family('client-sshG', run_client_sshg,
            strategy=lambda tier: client_case(tier, True),
            budget={'quick': 480, 'thorough': 6000},
            required={'all': ['ssh-agrees', 'contested-option',
                              'include-in-block', 'token-in-value',
                              'final-pass', 'glob-multi',
-                             'list-accumulates']}),
+                             'list-accumulates']},
+           shards={'quick': 4, 'thorough': 16}),
     Family('server-model', run_server_model, strategy=server_case,
            budget={'quick': 1600, 'thorough': 30000},
            required={'all': ['unsafe-name', 'illegal-user-raised',
                              '%u-substituted', 'saslprep-changes-name',
                              'template-uses-%u', 'metachar-name',
-                             'match-negated', 'include-file']}),
+                             'match-negated', 'include-file']},
+           shards={'quick': 6, 'thorough': 16}),
     Family('server-e2e', run_server_e2e, strategy=e2e_case,
            budget={'quick': 160, 'thorough': 2000},
            required={'all': ['attacker', 'legit-login', 'unsafe-name']},
-           case_timeout=120),
+           shards={'quick': 2, 'thorough': 8}, case_timeout=120),
 ]
